@@ -42,6 +42,24 @@ CHECKS = {
              'when_disconnected() x every sequence (<=3 quick, <=4 thorough) over {plain command, callback command, '
              'when_disconnected()} after the loss.',
         note='Trusted: Wire transport; prefix before the loss delivered reply-wise (C01 shows segmentation-independence).'),
+    'C12': dict(
+        engine=E1, design='DESIGN.md section 4 / C12',
+        technique='exhaustive input enumeration (all short strings over the critical alphabet, all short pair lists) through '
+                  'the real set_conf, decoded by an independent implementation of Tor\'s kvline grammar',
+        text='Exhaustive over the stated input space: every value of length 0..4 (quick) / 0..5 (thorough) over {a, SP, TAB, '
+             'dquote, backslash, =, squote, #, CR, LF}, every 1..3-pair list over 14 critical values, non-string values; '
+             'each SETCONF line is parsed back with refs/kvline.py and compared with the input pairs; exactly one line.',
+        note='Trusted: refs/kvline.py as a faithful model of kvline_parse(KV_QUOTED|KV_OMIT_VALS)+unescape_string; strings '
+             'longer than the bound and characters outside the alphabet are not explored (the property\'s random part).'),
+    'C13': dict(
+        engine=E1, design='DESIGN.md section 4 / C13',
+        technique='exhaustive input enumeration of reference-encoded GETINFO/GETCONF answers through the real '
+                  'get_info/get_info_single/get_conf/get_conf_single',
+        text='Exhaustive over the stated input space: single key x every value of length 0..3 (quick) / 0..4 (thorough) over a '
+             '10-character critical alphabet; all ordered 2- and 3-key sets x critical values; multi-line values of 1..3 '
+             'lines incl. dot-lines, key=value look-alikes and status look-alikes; GETCONF unset / 1..3 values incl. empty.',
+        note='Trusted: refs/ctlcodec.py GETINFO/GETCONF encoder (control-spec 3.3, 3.9). Two genuine defects are recorded '
+             'in known_findings.json (data line OK dropped; data line repeating the key splits the value).'),
 }
 
 PENDING = {}
